@@ -221,6 +221,24 @@ def record(sc):
     if prior is None:
         return tr
     uncounted = {n for n in params if sc["dist"][n]["kind"] == "unif" and sc["dist"][n].get("byname")}
+    bufs = {}
+
+    def arg(call):
+        x = _x_of(call, dim, unit)
+        if not sc.get("inplace") or not isinstance(x, np.ndarray):
+            return x
+        b = bufs.get((x.shape, x.dtype.str))
+        if b is None:
+            b = bufs[(x.shape, x.dtype.str)] = x.copy()
+        else:
+            b[...] = x            # the same array object, new content
+        return b
+
+    def take(out):
+        r = _vals(out)
+        if sc.get("inplace") and isinstance(out, np.ndarray) and out.ndim > 0 and out.flags.writeable:
+            out[...] = -777.0     # the caller reuses what it was handed
+        return r
     for call in sc["calls"]:
         for n in params:
             counts[n][:] = [0, 0, 0]
@@ -229,9 +247,9 @@ def record(sc):
         try:
             with time_limit(60):
                 if call["op"] == "pdf":
-                    e["shape"], e["vals"] = _vals(prior.pdf(_x_of(call, dim, unit)))
+                    e["shape"], e["vals"] = take(prior.pdf(arg(call)))
                 elif call["op"] == "logpdf":
-                    e["shape"], e["vals"] = _vals(prior.logpdf(_x_of(call, dim, unit)))
+                    e["shape"], e["vals"] = take(prior.logpdf(arg(call)))
                 elif call["op"] == "grad":
                     x = _x_of(call, dim, unit)
                     if call.get("hu", 0):
@@ -409,7 +427,17 @@ def instantiate(rnd, params, args, names, mode):
         nrows = 1 if (nd == 0 or (nd == 1 and dim > 1)) else rnd.choice([1, 2, 3, 5])
         return nd, nrows
 
-    if mode == "val":
+    if mode == "val" and rnd.random() < 0.3:
+        # the caller's loop: ONE argument buffer refilled in place between calls, returned arrays overwritten by the caller
+        sc["inplace"] = True
+        nd, nrows = shape_choice()
+        if nd == 0:
+            nd = 1
+        pts = [[point() for _ in range(nrows)] for _k in range(rnd.randint(2, 4))]
+        for op in rnd.choice([("logpdf", "pdf"), ("pdf", "logpdf"), ("logpdf",)]):
+            for rows in pts:
+                sc["calls"].append(dict(op=op, ndim=nd, rows=rows, form="array", dtype="f"))
+    elif mode == "val":
         for _ in range(rnd.randint(1, 2)):
             nd, nrows = shape_choice()
             rows = [point() for _ in range(nrows)]
